@@ -30,9 +30,13 @@ pub fn table_schema() -> Arc<Schema> {
     Arc::new(Schema::new(vec![
         Field::new("k", DataType::Int64, false),
         Field::new("v", DataType::Int64, true),
+        Field::new("w", DataType::Int64, false),
         Field::new("s", DataType::Utf8, true),
     ]))
 }
+
+/// Third integer column: same physical type as `k` and `v`, value range disjoint from both (`k` < 10^5, `v` in -3..12).
+pub fn w_of(k: i64) -> i64 { 1_000_000 + 3 * k }
 
 /// Deterministic content of row `i` (global row id `base + i`) of a file with `seed`.
 pub fn row_values(seed: u64, k: i64, pad: usize) -> (i64, Option<i64>, Option<String>) {
@@ -62,9 +66,9 @@ pub fn write_file(path: &Path, rows: &[u64], pad: usize, seed: u64, first_k: i64
             w.append_row_group(chunks).map_err(|e| e.to_string())?;
             continue;
         }
-        let mut ks = vec![]; let mut vs = vec![]; let mut ss = vec![];
-        for _ in 0..n { let (a, b, c) = row_values(seed, k, pad); ks.push(a); vs.push(b); ss.push(c); k += 1; }
-        let arrays: Vec<ArrayRef> = vec![Arc::new(Int64Array::from(ks)), Arc::new(Int64Array::from(vs)), Arc::new(StringArray::from(ss))];
+        let mut ks = vec![]; let mut vs = vec![]; let mut ws = vec![]; let mut ss = vec![];
+        for _ in 0..n { let (a, b, c) = row_values(seed, k, pad); ks.push(a); vs.push(b); ws.push(w_of(a)); ss.push(c); k += 1; }
+        let arrays: Vec<ArrayRef> = vec![Arc::new(Int64Array::from(ks)), Arc::new(Int64Array::from(vs)), Arc::new(Int64Array::from(ws)), Arc::new(StringArray::from(ss))];
         let b = RecordBatch::try_new(schema.clone(), arrays).map_err(|e| e.to_string())?;
         w.write(&b).map_err(|e| e.to_string())?;
         w.flush().map_err(|e| e.to_string())?;
